@@ -119,6 +119,26 @@ Proof.
 Qed.
 Print Assumptions C01_versatiles_block_definition.
 
+(* versatiles: the 66-byte file header reads back to the fields it was written from - the declared
+   tile format and compression, zoom range, bounds, and the byte ranges of metadata and block index;
+   and whatever the reader accepts as a header declares one of the ten formats and three compressions *)
+Theorem C01_versatiles_header :
+  forall h, hdr_wf h -> length (hdr_to_blob h) = 66%nat /\ hdr_from_blob (hdr_to_blob h) = Ok h.
+Proof. exact hdr_roundtrip. Qed.
+Print Assumptions C01_versatiles_header.
+Theorem C01_versatiles_header_codes :
+  forall l h, hdr_from_blob l = Ok h -> In (h_format h) format_codes /\ (h_comp h <= 2)%N /\ length l = 66%nat.
+Proof. exact hdr_accepts_known_codes. Qed.
+Print Assumptions C01_versatiles_header_codes.
+
+(* PMTiles: the 127-byte header reads back to the fields it was written from (directory, metadata
+   and tile-data ranges, counts, clustered flag, compressions, tile type, zoom range, bounds, centre) *)
+From VT Require Import Model.PMHeader Proofs.PMHeaderProofs.
+Theorem C01_pmtiles_header :
+  forall h, pmh_wf h -> length (pmh_serialize h) = 127%nat /\ pmh_deserialize (pmh_serialize h) = Ok h.
+Proof. exact pmh_roundtrip. Qed.
+Print Assumptions C01_pmtiles_header.
+
 (* tar / directory: the member name `z/x/y<.format>[.gz|.br]` the writers produce is read back to the
    same coordinate, format (all ten) and compression, for every coordinate a tile can have *)
 Theorem C01_member_names :
@@ -151,3 +171,8 @@ Example C01_example_writer :
   pm_lookup 1 3 (read_leaf 1 (d_leaves_bytes d)) (d_root d) 15 = Ok None /\
   as_directory 16384 20 [1; 2]%nat es = Some (build_roots_leaves 2 es).
 Proof. cbn [runs_ok e_id e_run]. repeat split; try lia; vm_compute; reflexivity. Qed.
+
+Example C01_example_header :
+  let h := mkH 32 2 0 14 4160749568 100 300 4294967295 66 120 1000 33 in
+  hdr_wf h /\ firstn 16 (hdr_to_blob h) = [118; 101; 114; 115; 97; 116; 105; 108; 101; 115; 95; 118; 48; 50; 32; 2]%N.
+Proof. split; [unfold hdr_wf, format_codes, u32_max, u64_max; cbn; repeat split; try lia; tauto|vm_compute; reflexivity]. Qed.
